@@ -54,6 +54,8 @@ pub fn gen_replay(rng: &mut Rng, k: usize, o: &GenOpts) -> (Replay, Vec<String>)
     let dens = 2 + rng.next() % 5;
     let mut absent = vec![]; for i in 0..nf { for c in 0..nslots { if rng.next() % dens == 0 { absent.push((i, c)); } } }
     let mut r = simple(v, &pl, nf, &absent, rng);
+    // teams on / off (the byte is random otherwise, which is "on" 255 times in 256): absent characters occur in free-for-all games as in team games
+    if r.start_block.len() > 12 { r.start_block[12] = if (k + k / 4) % 2 == 0 { 0 } else { 1 + (rng.next() % 255) as u8 }; }
     if !gte(v,2,2) { r.frames.retain(|f| f.chars.iter().any(|c| c.2.is_some())); for (i, f) in r.frames.iter_mut().enumerate() { f.id = -123 + i as i32; } }
     else { let mode = rng.next() % 4; for i in 1..r.frames.len() { let prev = r.frames[i-1].id; r.frames[i].id = match mode {
         0 => prev + 1, 1 => if rng.next() % 3 == 0 { prev } else { prev + 1 }, 2 => if rng.next() % 4 == 0 { (prev - (rng.next() % 4) as i32).max(-123) } else { prev + 1 },
@@ -289,6 +291,9 @@ fn read(rng: &mut Rng, ctx: &mut Ctx) {
                 if end_json(&gs.end) != end_json(&g.end) || gs.end.as_ref().map(|e| &e.bytes) != g.end.as_ref().map(|e| &e.bytes) { c.fail("C10", "skip-frames: Game End differs from full parse"); }
                 if gs.metadata != g.metadata { c.fail("C10", "skip-frames: metadata differs from full parse"); }
                 if gs.frames.id.len() != 0 { c.fail("C10", format!("skip-frames: {} frames", gs.frames.id.len())); }
+                { let lay = |f: &im::Frame| -> Vec<(u8, bool)> { f.ports.iter().map(|p| (p.port as u8, p.follower.is_some())).collect() };
+                  if lay(&gs.frames) != lay(&g.frames) || gs.frames.start.is_some() != g.frames.start.is_some() || gs.frames.end.is_some() != g.frames.end.is_some() || gs.frames.item.is_some() != g.frames.item.is_some() {
+                      c.fail("C10", format!("skip-frames: the empty frame set is not laid out like the game's (ports / followers {:?} vs {:?})", lay(&gs.frames), lay(&g.frames))); } }
                 if hash { if gs.hash.as_deref() != Some(xx.as_str()) { c.fail("C11", format!("skip-frames hash {:?} != {}", gs.hash, xx)); } } else if gs.hash.is_some() { c.fail("C11", "hash reported though not requested"); }
                 match write_slp(gs) { Err(e) => c.fail("C10", format!("skip-frames result cannot be written: {}", e)), Ok(y) => { let (l, g2) = read_line(&y, false, false); match g2 { None => c.fail("C10", format!("skip-frames result cannot be re-read: {}", l)),
                     Some(g2) => if start_json(&g2.start) != start_json(&g.start) || end_json(&g2.end) != end_json(&g.end) || g2.metadata != g.metadata { c.fail("C10", "re-read of the written skip-frames game differs in start/end/metadata") } } } }
@@ -448,6 +453,16 @@ fn roll(rng: &mut Rng, ctx: &mut Ctx) {
             Ok((a, b)) => { c.impl_out = format!("ok {} {}", a == exp, b == exp); if a != exp { c.fail("C15", "mask of the long game differs from the reference (first call)"); }
                 if b != exp { c.fail("C15", format!("mask of a game asked again after {} calls on other games differs from the reference ({} rows differ)", run, b.iter().zip(&exp).filter(|(x, y)| x != y).count())); } } }
         ctx.push(c); } }
+    // long tables: a frame sent again (or a rollback of two frames) with the repeated rows exactly on either side of a row index that is a power of
+    // two (an implementation that walks the column in blocks), among thousands of consecutive ids
+    for (bi, b) in [64usize, 128, 256, 512, 1024, 2048, 4096, 1024, 2048].into_iter().enumerate() { for (mode, first) in [(Rollbacks::ExceptFirst, true), (Rollbacks::ExceptLast, false)] {
+        let back = if bi >= 7 { 2 } else { 1 }; let mut ids: Vec<i32> = (0..b as i32).map(|i| -123 + i).collect(); let top = *ids.last().unwrap(); ids.extend((0..back + 300).map(|j| top - back + 1 + j));
+        let frame = im::Frame { id: PrimitiveArray::from_vec(ids.clone()), ports: vec![], start: None, end: None, item_offset: None, item: None };
+        let got = std::panic::catch_unwind(|| frame.rollbacks(mode)); let exp = reference(&ids, first);
+        let mut c = Case::new(format!("roll {} {}", if first { "first" } else { "last" }, ids.iter().map(|x| x.to_string()).collect::<Vec<_>>().join(",")), String::new()); c.tags = vec![format!("block-boundary:{}:{}", b, back)];
+        match got { Err(_) => { c.impl_out = "panic".into(); c.fail("C15", "rollbacks() panicked on a long table"); }
+            Ok(m) => { c.impl_out = format!("ok {}", m.iter().map(|b| if *b { '1' } else { '0' }).collect::<String>()); if m != exp { let bad: Vec<usize> = (0..m.len()).filter(|&i| m[i] != exp[i]).collect(); c.fail("C15", format!("table of {} rows with a frame sent again at row {}: the mask differs from the reference at rows {:?}", ids.len(), b, &bad[..bad.len().min(6)])); } } }
+        ctx.push(c); } }
     // the id column edited in place between two calls of the same mode (arrow2's own `get_mut_values`), length, first and last id unchanged; and a game
     // dropped, then another of the same size with the same first and last id built (and likely placed where the first one was): the mask is a function of
     // the ids that are there now
@@ -528,6 +543,13 @@ fn arrow(rng: &mut Rng, ctx: &mut Ctx) {
                     let back = im::Frame::from_struct_array(fe2.into_struct_array(ver, &ports), ver);
                     let mut got = vec![]; let wg = slippi::write(&mut got, &Game { start: g2.start.clone(), end: g2.end.clone(), frames: back, metadata: g2.metadata.clone(), gecko_codes: g2.gecko_codes.as_ref().map(|c| peppi::game::GeckoCodes { bytes: c.bytes.clone(), actual_size: c.actual_size }), hash: None, quirks: g2.quirks });
                     if ww.is_ok() != wg.is_ok() || (ww.is_ok() && want != got) { win_err = Some(format!("absence recorded only in the leader / follower bitmap (nested pre / post bitmaps unset): after export and import the written file differs ({} vs {} bytes)", got.len(), want.len())); } } }
+            // a frame table that carries a column its version does not have (edited in memory; imported from an archive whose columns disagree with the
+            // declared version): the row view goes by the version — Frame Start below 2.2, Frame End below 3.0 are reported as absent
+            if !gte(r.v, 3, 0) && k % 2 == 0 { let mut fe = im::Frame::from_struct_array(sa.clone(), ver);
+                if !gte(r.v, 2, 2) { fe.start = Some(im::Start { random_seed: arrow2::array::PrimitiveArray::from_vec(vec![7u32; n]), scene_frame_counter: None, validity: None }); }
+                fe.end = Some(im::End { latest_finalized_frame: Some(arrow2::array::PrimitiveArray::from_vec(vec![-123i32; n])), validity: None });
+                for i in 0..n.min(3) { match std::panic::catch_unwind(std::panic::AssertUnwindSafe(|| fe.transpose_one(i, ver))) { Err(_) => { win_err = Some("row view panics on a frame table with a column the version does not have".into()); break; }
+                    Ok(t) => { if (!gte(r.v, 2, 2) && t.start.is_some()) || t.end.is_some() { win_err = Some(format!("row view of a {:?} game reports start={} end={} (columns present in memory, absent at that version)", r.v, t.start.is_some(), t.end.is_some())); break; } } } } }
             if let Some(e) = win_err { return Err(format!("WINDOW {}", e)); }
             // every exported per-character column, addressed by NAME, holds the values the spec puts at that field's offset in the
             // occurrence of that frame (independent of the in-memory representation and of the import side)
@@ -562,6 +584,20 @@ fn arrow(rng: &mut Rng, ctx: &mut Ctx) {
                 let exp = spec::arrow_leaves(r.v, &slots_of(&r.start_block));
                 if lv != exp { let i = lv.iter().zip(&exp).position(|(a, b)| a != b).unwrap_or(lv.len().min(exp.len())); c.fail("C14", format!("Arrow schema differs from the per-version field table at leaf {}: {:?} vs {:?}", i, lv.get(i), exp.get(i))); } if !same { c.fail("C14", "from_struct_array(into_struct_array(frames)) does not serialise to the identical .slp"); } if !rows { c.fail("C14", "struct array length != number of frame rows"); } } }
         c.tags = tags; ctx.push(c);
+        // a game of a version newer than the library knows (read with the newest layout, longer payloads tolerated): the Arrow export at that version has
+        // the newest field table, and export / import / export is a fixed point (no writer involved: the writers refuse such versions)
+        if k % 5 == 3 { let (mut r2, _) = gen_replay(rng, k, &GenOpts { max_frames: 4, newer: true, force: None }); if r2.frames.is_empty() || slots_of(&r2.start_block).is_empty() { r2 = simple((4, 0, 0), &[(0, 0, 2), (1, 1, 14)], 3, &[], rng); }
+            if (k / 5) % 2 == 0 { let v2 = [(4u8, 0u8, 0u8), (4, 6, 2), (5, 3, 1), (255, 0, 0), (4, 7, 0)][(k / 10) % 5]; r2.v = v2; r2.start_block[0] = v2.0; r2.start_block[1] = v2.1; r2.start_block[2] = v2.2; }
+            let b2 = encode(&r2);
+            let mut c = Case::new(format!("skipcase newer-export {:?}", r2.v), String::new()); c.tags = vec![format!("newer-export major{}", r2.v.0.min(5))];
+            let res = std::panic::catch_unwind(|| -> Result<(Vec<String>, String, String, usize, usize), String> { let g = slippi::read(Cursor::new(&b2), None).map_err(|e| e.to_string())?; let ports = port_occupancy(&g.start); let ver = g.start.slippi.version; let n = g.frames.id.len();
+                let sa = g.frames.into_struct_array(ver, &ports); let mut lv = vec![]; crate::arrowdump::leaves("", arrow2::array::Array::data_type(&sa), &mut lv); let d1 = crate::arrowdump::dump(&sa); let rows = arrow2::array::Array::len(&sa);
+                let sa2 = im::Frame::from_struct_array(sa, ver).into_struct_array(ver, &ports); Ok((lv, d1, crate::arrowdump::dump(&sa2), rows, n)) });
+            match res { Err(_) => { c.impl_out = "panic".into(); c.fail("C14", format!("panic exporting / importing the frames of a {:?} game", r2.v)); } Ok(Err(e)) => { c.impl_out = format!("err {}", &e[..e.len().min(60)]); }
+                Ok(Ok((lv, d1, d2, rows, n))) => { c.impl_out = format!("ok rows={} same={}", rows, d1 == d2); let exp = spec::arrow_leaves(r2.v, &slots_of(&r2.start_block));
+                    if lv != exp { let i = lv.iter().zip(&exp).position(|(a, b)| a != b).unwrap_or(lv.len().min(exp.len())); c.fail("C14", format!("frames of a {:?} game: Arrow schema differs from the field table at leaf {}: {:?} vs {:?}", r2.v, i, lv.get(i), exp.get(i))); }
+                    if rows != n { c.fail("C14", format!("{} rows for {} frames", rows, n)); } if d1 != d2 { c.fail("C14", format!("frames of a {:?} game: export, import, export is not a fixed point", r2.v)); } } }
+            ctx.push(c); }
         // an item row that no frame's offsets cover (the reader accepts an Item event that carries the last frame's id after that frame's Frame End; a
         // user-built table may have one too): export and import keep the item column as it is, the written file is the same with and without the trip
         if gte(r.v, 3, 0) && k % 4 == 1 && !zero_ports { let pad = Pad::default(); let mut body = body_events(&r, &pad);
@@ -648,6 +684,17 @@ pub fn check_start_fields(s: &peppi::game::Start, b: &[u8], c: &mut Vec<(String,
 
 fn start(rng: &mut Rng, ctx: &mut Ctx) {
     let classes = version_classes();
+    // every declared Game Start size from 1 byte to the whole block (the rest of the file as it is), for one version per run: the reader returns — an error
+    // for the sizes that end inside a field or before the end of the 0.1 layout, a game for the others — and both readers and the start call agree
+    { let v = classes[(ctx.seed as usize) % classes.len()]; let r = simple(v, &[(0, 0, 2), (1, 1, 14)], 2, &[], rng); let full = r.start_block.len();
+        let mut panics: Vec<usize> = vec![]; let mut oks = 0usize; let pad = Pad::default();
+        for sz in 1..=full { let mut r2 = r.clone(); r2.start_block.truncate(sz); let b = assemble(&r2, &table(&r2, &pad), &body_events(&r2, &pad), &[], &pad);
+            for (skip, hash) in [(false, false), (true, true)] { let o = read_opts(skip, hash);
+                match std::panic::catch_unwind(|| slippi::read(Cursor::new(&b), Some(&o)).is_ok()) { Err(_) => { if !panics.contains(&sz) { panics.push(sz); } } Ok(true) => oks += 1, Ok(false) => {} } }
+            if std::panic::catch_unwind(|| { let mut c = Cursor::new(&b[..]); slippi::de::parse_header(&mut c, None).and_then(|_| slippi::de::parse_start(&mut c, None)).is_ok() }).is_err() && !panics.contains(&sz) { panics.push(sz); } }
+        let mut c = Case::new(format!("skipcase start-sizes {:?}", v), format!("sizes 1..={} panics={:?} accepted={}", full, &panics[..panics.len().min(8)], oks)); c.tags = vec!["start-sizes".into()];
+        if !panics.is_empty() { c.fail("C06", format!("the reader panics when the payload table declares a Game Start of {:?} bytes (version {:?})", &panics[..panics.len().min(12)], v)); }
+        ctx.push(c); }
     for k in 0..ctx.n {
         let v = if k % 3 == 2 { [(3u8,9u8,0u8),(3,11,0),(3,12,0),(3,14,0),(3,16,0),(3,10,4),(3,13,0),(1,3,0)][(k / 3) % 8] } else { classes[k % classes.len()] };
         let mut pl = vec![]; for p in 0..4u8 { pl.push((p, (rng.next() % 5) as u8, (rng.next() % 30) as u8)); }
@@ -872,6 +919,9 @@ fn peppi_suite(rng: &mut Rng, ctx: &mut Ctx) {
             let used = 2 + n * per - 1; let last = 200 + target.saturating_sub(used).min(55);
             for i in 0..n { let key = format!("k{:05}", i); m.push(b'U'); m.push(6); m.extend(key.as_bytes()); let vl = if i + 1 == n { last } else { 200 }; m.extend(b"SU"); m.push(vl as u8); m.extend(std::iter::repeat(b'a' + (i % 26) as u8).take(vl)); }
             r.metadata = Some(m); tags.push(format!("big-metadata:{}", target)); }
+        // name fields are not empty (one ASCII / kana character per field, then NUL): what the archive's reader makes of start.raw shows in them
+        { let b = &mut r.start_block; if b.len() >= 416 { for p in 0..4 { b[352 + 16 * p] = b'A' + p as u8; b[352 + 16 * p + 1] = [0u8, 0xb1][p % 2]; b[352 + 16 * p + 2] = 0; } }
+          if b.len() >= 584 { for p in 0..4 { b[420 + 31 * p] = b'n'; b[420 + 31 * p + 1] = b'0' + p as u8; b[420 + 31 * p + 2] = 0; b[544 + 10 * p] = b'C'; b[544 + 10 * p + 1] = b'#'; b[544 + 10 * p + 2] = b'1' + p as u8; b[544 + 10 * p + 3] = 0; } } }
         let comp = comps[k % 3]; let hash = k % 2 == 0;
         // every other hashed replay gets a digest with one or two leading zero hex digits (the random seed of the start block is varied until it
         // has): the stored string is 16 digits wide whatever the value
@@ -879,44 +929,47 @@ fn peppi_suite(rng: &mut Rng, ctx: &mut Ctx) {
             for t in 0..20000u32 { r.start_block[316..320].copy_from_slice(&t.to_be_bytes()); if xxhash_rust::xxh3::xxh3_64(&encode(&r)) >> want == 0 { break; } } }
         let b = encode(&r);
         let zero_ports = slots_of(&r.start_block).is_empty();
+        let odd_hash: Option<String> = if k % 6 == 5 { Some(["xxh3:72CEDBF232804931", "xxh3:93a318024217962", "sha1:da39a3ee5e6b4b0d3255bfef95601890afd80709", "xxh3:00000000000000001", "XXH3:72cedbf232804931"][(k / 6) % 5].to_string()) } else { None };
         let mut fails: Vec<(String, String)> = vec![]; let mut extra: Option<String> = None;
         let res = std::panic::catch_unwind(std::panic::AssertUnwindSafe(|| -> Result<String, String> {
             let g = slippi::read(Cursor::new(&b), Some(&read_opts(false, hash))).map_err(|_| "err".to_string())?;
+            // a hash the caller put there (another tool's spelling: upper case, fewer digits, another algorithm): stored and returned as it is
+            let mut g = g; if let Some(o) = &odd_hash { g.hash = Some(o.clone()); }
             let start = g.start.clone(); let endc = g.end.clone(); let h0 = g.hash.clone(); let q0 = g.quirks.map(|q| q.double_game_end);
             let nframes = g.frames.id.len(); let has_gecko = g.gecko_codes.is_some(); let md0 = g.metadata.clone();
             let mut buf = vec![];
             peppi::io::peppi::write(&mut buf, g, Some(&peppi::io::peppi::ser::Opts { compression: comp })).map_err(|_| "err".to_string())?;
             if &buf[..10] != b"peppi.json" { fails.push(("C18".into(), "file signature `peppi.json` is not at offset 0".into())); }
             // the same archive written into a sink that accepts a few bytes per call
-            if k % 3 == 1 { let g = slippi::read(Cursor::new(&b), Some(&read_opts(false, hash))).unwrap(); let mut sink = crate::suites2::ShortSink::new([1usize, 7, 100, 511, 513][k % 5], None, if k % 2 == 0 { 4 } else { 0 });
+            if k % 3 == 1 { let g = { let mut g = slippi::read(Cursor::new(&b), Some(&read_opts(false, hash))).unwrap(); if let Some(o) = &odd_hash { g.hash = Some(o.clone()); } g }; let mut sink = crate::suites2::ShortSink::new([1usize, 7, 100, 511, 513][k % 5], None, if k % 2 == 0 { 4 } else { 0 });
                 let r = peppi::io::peppi::write(&mut sink, g, Some(&peppi::io::peppi::ser::Opts { compression: comp }));
                 if r.is_err() || sink.out != buf { let m = format!(".slpp written into a sink that takes {} bytes per call differs from the one written into a Vec ({:?}, lengths {} vs {})", [1usize, 7, 100, 511, 513][k % 5], r.err().map(|e| e.to_string()), sink.out.len(), buf.len()); fails.push(("C02".into(), m.clone())); fails.push(("C18".into(), m)); } }
             // the archive is complete in the caller's sink when `write` returns, also when the caller's writer buffers on its own (a BufWriter with
             // room left, a sink that commits on flush): the writer's last act is to flush what it was given
-            if k % 3 == 2 { let g = slippi::read(Cursor::new(&b), Some(&read_opts(false, hash))).unwrap();
+            if k % 3 == 2 { let g = { let mut g = slippi::read(Cursor::new(&b), Some(&read_opts(false, hash))).unwrap(); if let Some(o) = &odd_hash { g.hash = Some(o.clone()); } g };
                 let mut bw = std::io::BufWriter::with_capacity(1 << 22, Vec::new());
                 let r = peppi::io::peppi::write(&mut bw, g, Some(&peppi::io::peppi::ser::Opts { compression: comp }));
                 if r.is_err() || bw.get_ref() != &buf { let m = format!(".slpp written through a caller-side BufWriter: {} of {} bytes have reached the sink when write returns ({:?})", bw.get_ref().len(), buf.len(), r.err().map(|e| e.to_string())); fails.push(("C02".into(), m.clone())); fails.push(("C18".into(), m)); } }
             // history: a write that fails part-way (the caller's sink reports an error in one of the last write calls: end-of-archive marker, padding,
             // contents or header of the last members) leaves nothing behind: the next write on the same thread gives the same archive as ever
             if (k + k / 5) % 3 == 0 { let o = Some(peppi::io::peppi::ser::Opts { compression: comp });
-                let g = slippi::read(Cursor::new(&b), Some(&read_opts(false, hash))).unwrap(); let mut cnt = crate::suites2::ShortSink::new(1 << 30, None, 0); let _ = peppi::io::peppi::write(&mut cnt, g, o.as_ref());
+                let g = { let mut g = slippi::read(Cursor::new(&b), Some(&read_opts(false, hash))).unwrap(); if let Some(o) = &odd_hash { g.hash = Some(o.clone()); } g }; let mut cnt = crate::suites2::ShortSink::new(1 << 30, None, 0); let _ = peppi::io::peppi::write(&mut cnt, g, o.as_ref());
                 let calls = cnt.calls(); let at = calls.saturating_sub(1 + (k / 3) % 8);
-                let g = slippi::read(Cursor::new(&b), Some(&read_opts(false, hash))).unwrap(); let mut bad = crate::suites2::ShortSink::new(1 << 30, Some(at), 0);
+                let g = { let mut g = slippi::read(Cursor::new(&b), Some(&read_opts(false, hash))).unwrap(); if let Some(o) = &odd_hash { g.hash = Some(o.clone()); } g }; let mut bad = crate::suites2::ShortSink::new(1 << 30, Some(at), 0);
                 let r1 = std::panic::catch_unwind(std::panic::AssertUnwindSafe(|| peppi::io::peppi::write(&mut bad, g, o.as_ref()).is_ok()));
                 if r1.is_err() { fails.push(("C06".into(), ".slpp writer panicked on a sink error".into())); }
-                let g = slippi::read(Cursor::new(&b), Some(&read_opts(false, hash))).unwrap(); let mut buf3 = vec![]; let r3 = peppi::io::peppi::write(&mut buf3, g, o.as_ref());
+                let g = { let mut g = slippi::read(Cursor::new(&b), Some(&read_opts(false, hash))).unwrap(); if let Some(o) = &odd_hash { g.hash = Some(o.clone()); } g }; let mut buf3 = vec![]; let r3 = peppi::io::peppi::write(&mut buf3, g, o.as_ref());
                 if r3.is_err() || buf3 != buf { let m = format!("after a write that failed in sink call {} of {}, writing the game on the same thread gives a different archive ({} vs {} bytes)", at, calls, buf3.len(), buf.len()); fails.push(("C02".into(), m.clone())); fails.push(("C18".into(), m)); }
                 else if let Ok(g2) = peppi::io::peppi::read(Cursor::new(&buf3), None) { let mut o2 = vec![]; if slippi::write(&mut o2, &g2).is_err() || o2 != b { fails.push(("C02".into(), "slp -> slpp -> slp differs from the original after an earlier failed write".into())); } } }
             // determinism: write the same game again (once per run across a tick of the wall clock: nothing in the archive may depend on when it is written)
             if k == 1 { std::thread::sleep(std::time::Duration::from_millis(1100)); }
-            { let g = slippi::read(Cursor::new(&b), Some(&read_opts(false, hash))).unwrap(); let mut buf2 = vec![]; let _ = peppi::io::peppi::write(&mut buf2, g, Some(&peppi::io::peppi::ser::Opts { compression: comp })); if buf2 != buf { fails.push(("C18".into(), "writing the same game twice gives different bytes".into())); } }
+            { let g = { let mut g = slippi::read(Cursor::new(&b), Some(&read_opts(false, hash))).unwrap(); if let Some(o) = &odd_hash { g.hash = Some(o.clone()); } g }; let mut buf2 = vec![]; let _ = peppi::io::peppi::write(&mut buf2, g, Some(&peppi::io::peppi::ser::Opts { compression: comp })); if buf2 != buf { fails.push(("C18".into(), "writing the same game twice gives different bytes".into())); } }
             // the same archive through sources that return short reads (pipes, decompressors): same game, whatever the piece sizes
             { let plan: Vec<usize> = match k % 5 { 0 => vec![1], 1 => vec![100], 2 => vec![511, 1, 513], 3 => vec![7, 300, 2], _ => vec![4096] };
               for skipf in [false, true] { let o = peppi::io::peppi::de::Opts { skip_frames: skipf };
                 let a = peppi::io::peppi::read(Cursor::new(&buf), Some(&o)).map(|g| crate::suites2::game_sig(&g)).map_err(|e| e.to_string());
                 let c = peppi::io::peppi::read(crate::suites2::Chunked::new(buf.clone(), plan.clone(), None), Some(&o)).map(|g| crate::suites2::game_sig(&g)).map_err(|e| e.to_string());
-                if a != c { let m = format!(".slpp read through a source with short reads {:?} (skip_frames={}) differs from the read from memory: {:?} vs {:?}", plan, skipf, c.as_ref().map(|s| &s[..s.len().min(80)]), a.as_ref().map(|s| &s[..s.len().min(80)])); fails.push(("C02".into(), m.clone())); if skipf { fails.push(("C10".into(), m.clone())); } fails.push(("C18".into(), m)); } } }
+                if a != c { let m = format!(".slpp read through a source with short reads {:?} (skip_frames={}) differs from the read from memory: {:?} vs {:?}", plan, skipf, c.as_ref().map(|s| &s[..s.len().min(80)]), a.as_ref().map(|s| &s[..s.len().min(80)])); fails.push(("C02".into(), m.clone())); if skipf { fails.push(("C10".into(), m.clone())); } fails.push(("C19".into(), format!("name fields / start block of a .slpp read through short reads are not those of the archive: {}", &m[..m.len().min(200)]))); fails.push(("C05".into(), m.clone())); fails.push(("C18".into(), m)); } } }
             // back to .slp
             let mut rebuilt: Option<(Vec<u8>, Option<Vec<u8>>)> = None; // what the .slpp reader reconstructs from start.raw / end.raw, as JSON
             match peppi::io::peppi::read(Cursor::new(&buf), None) {
@@ -955,7 +1008,7 @@ fn peppi_suite(rng: &mut Rng, ctx: &mut Ctx) {
             Ok(format!("ok {}", parts.join("|")))
         }));
         let line = match res { Err(_) => { if zero_ports && !r.frames.is_empty() { fails.push(("C02".into(), "KNOWN:zero-ports panic in peppi::write (no occupied port)".into())); } else { fails.push(("C02".into(), "panic in the .slpp writer/reader".into())); fails.push(("C18".into(), "panic in the .slpp writer".into())); } "panic".to_string() }, Ok(Err(e)) => { if !deep.map_or(false, |d| d > 127) { fails.push(("C02".into(), "well-formed replay could not be converted to .slpp".into())); } e }, Ok(Ok(s)) => s };
-        let hs = if hash { format!("xxh3:{:016x}", xxhash_rust::xxh3::xxh3_64(&b)) } else { "-".to_string() };
+        let hs = if let Some(o) = &odd_hash { o.clone() } else if hash { format!("xxh3:{:016x}", xxhash_rust::xxh3::xxh3_64(&b)) } else { "-".to_string() };
         let mut c = Case::new(format!("pwrite 1 {} {}", hs, hex(&b)), line); c.oracle = fails; c.tags = tags; c.tags.push(format!("comp{}", k % 3));
         ctx.push(c);
         // the struct array read back from the IPC stream, against the proof-level Arrow model (export + validity normalisation), column by column
